@@ -96,6 +96,8 @@ def gen(base: str, tier: str, W):
 def shard(args):
     if args[0] == "after-activity":
         return after_activity_shard(args)
+    if args[0] == "registry":
+        return registry_shard(args)
     base, tier = args
     part = par.Part()
     W = alphabet.wide(thorough=(tier == "thorough"))
@@ -117,6 +119,28 @@ def shard(args):
                                               "how": f"{fam} from base {base}"}, exp, obs)
     part.sample({"base": base, "examples": examples})
     part.stat("bases")
+    return part.done()
+
+
+def registry_shard(args):
+    """Every BIC text the bundled bank registry carries (and its 8-character stem / XXX form):
+    acceptance must follow the grammar and the ISO country list, whatever the registry says."""
+    from ..ref import lookup
+    _, tier = args
+    part = par.Part()
+    seen = set()
+    for b in sorted(lookup.by_bic()):
+        for text in (b, b[:8], b[:8] + "XXX", b.lower()):
+            if text in seen:
+                continue
+            seen.add(text)
+            part["evals"] += 4
+            part.foreign.add("reg:" + text)
+            ok, sig, exp, obs = judge(text)
+            if not ok:
+                part.violation(f"{sig} [registry BIC]", {"kind": "bic_text", "text": text,
+                                                        "how": f"BIC text of the bank registry ({b})"}, exp, obs)
+    part.stat("registry_bic_texts", len(seen))
     return part.done()
 
 
@@ -149,7 +173,7 @@ def replay(case: dict) -> dict:
 def main(tier: str) -> int:
     run = report.Run(PID, tier, "exploration", RULE)
     bs = bases()
-    par.run_shards(run, shard, [("after-activity", tier)] + [(b, tier) for b in bs])
+    par.run_shards(run, shard, [("after-activity", tier), ("registry", tier)] + [(b, tier) for b in bs])
     run.extra.update({"bases": bs, "alphabet_size": len(alphabet.wide(tier == "thorough")),
                       "entry_points_per_text": 4,
                       "iso_country_codes": len(reg.iso_countries()),
